@@ -218,6 +218,8 @@ pub fn finish(mut evidence: Evidence, violations: Vec<Violation>) -> i32 {
             let path = write_replay(v);
             println!("VIOLATION property={} replay={}", v.property, path.display());
             println!("  oracle={} {}", v.oracle, v.detail);
+        } else {
+            println!("  also: oracle={} {}", v.oracle, v.detail);
         }
         reported += 1;
     }
